@@ -350,7 +350,7 @@ static inline void gen_cfg(Cfg &c, Rng &r)
     L.a_min = r.chance(0.5) ? -1000 : 0; L.a_max = 1000;
     for(int p = 0; p < 2; ++p) {
         L.a_def[p] = (int)r.range(L.a_min, 127);
-        L.b_def[p] = (float)r.range(-40, 40) / 4;
+        L.b_def[p] = r.chance(0.3) ? 0.f : (float)r.range(-40, 40) / 4;
         bool flat = r.chance(0.5); int base = (int)r.range(-5, 5);
         for(int i = 0; i < 8; ++i) L.arr_def[p][i] = flat ? base : (int)r.range(-5, 5);
     }
@@ -377,7 +377,7 @@ static inline void gen_cfg(Cfg &c, Rng &r)
     c.mid_x_def = (int)r.range(-5, 5); c.vol_def = (int)r.range(0, 127);
     c.enable_placement = (int)r.below(4);
     c.has_many = r.chance(0.7); c.has_ptr = r.chance(0.5); c.has_top = r.chance(0.6);
-    { static const char *EN[] = {"en", "en", "en", "leaf_on", "leafen"}; c.en_name = EN[r.below(5)]; }
+    { static const char *EN[] = {"en", "en", "e", "leaf_on", "leafen", "e"}; c.en_name = EN[r.below(6)]; }
     { static const char *VN[] = {"val", "val", "mode_val", "modeval"}; L.val_name = VN[r.below(4)]; }
     L.preset_lo = r.chance(0.3) ? -1 : 0;
     L.colon_last = r.chance(0.3);
